@@ -477,6 +477,154 @@ fn excluded_cases(out: &mut Vec<Case>) {
     }
 }
 
+const SESSION_A: &str = "interface org.example.net\nmethod Echo(n: int) -> (n: int)\nmethod Count(n: int) -> (i: int)\nmethod Note(text: string) -> ()\nerror Down (why: string)\n";
+const SESSION_B: &str = "interface org.example.net.dns\nmethod Resolve(name: string) -> (addr: []string)\nmethod Echo(n: int) -> (n: int)\n";
+const SESSION_C: &str = "interface org.example.netx\nmethod Echo(n: int) -> (m: int)\n";
+
+/// a generated-client step with random well-typed values; `mode`: call | more | oneway | abandon
+fn gen_step(rng: &mut Rng, texts: &[&str], i: usize, method: Option<&str>, mode: &str) -> Option<Step> {
+    let idl = Idl::parse(texts[i]).ok()?;
+    let usable: Vec<&Method> = idl
+        .methods
+        .iter()
+        .filter(|m| inhabited(&idl, &Ty::Struct(m.input.clone()), 6) && inhabited(&idl, &Ty::Struct(m.output.clone()), 6))
+        .filter(|m| method.map(|n| n == m.name).unwrap_or(true))
+        .collect();
+    if usable.is_empty() {
+        return None;
+    }
+    let m = *rng.pick(&usable);
+    let args = gen_val(rng, &idl, &Ty::Struct(m.input.clone()), 2);
+    let (mode, script) = if mode == "abandon" {
+        let mut script = gen_script(rng, &idl, m, "more");
+        while script.len() < 2 {
+            script.insert(0, Action::Reply(true, gen_val(rng, &idl, &Ty::Struct(m.output.clone()), 2)));
+        }
+        let k = rng.below(script.len());
+        (format!("abandon{}", k), script)
+    } else {
+        (mode.to_string(), gen_script(rng, &idl, m, mode))
+    };
+    Some(Step::Gen(i, CallCase { method: m.name.clone(), mode, args, script }))
+}
+
+/// a hand-written request that is answered with an error and leaves the connection usable (`fatal`: ill-typed
+/// parameters, after which the generated dispatch ends the connection: last step only)
+fn raw_step(rng: &mut Rng, texts: &[&str], fatal: bool) -> Step {
+    let idls: Vec<Idl> = texts.iter().filter_map(|t| Idl::parse(t).ok()).collect();
+    let idl = rng.pick(&idls);
+    let with_input: Vec<&Method> = idl.methods.iter().filter(|m| !m.input.is_empty()).collect();
+    let mut o = serde_json::Map::new();
+    if fatal && !with_input.is_empty() {
+        o.insert("method".into(), Value::from(format!("{}.{}", idl.name, rng.pick(&with_input).name)));
+        o.insert("parameters".into(), Value::from(5));
+        return Step::Raw(Value::Object(o));
+    }
+    match rng.below(if with_input.is_empty() { 4 } else { 5 }) {
+        0 => {
+            o.insert("method".into(), Value::from("Nodot"));
+        }
+        1 => {
+            o.insert("method".into(), Value::from(format!("{}x.nosuch.Method", idl.name)));
+            o.insert("parameters".into(), Value::Object(serde_json::Map::new()));
+        }
+        2 => {
+            o.insert("method".into(), Value::from(format!("{}.NoSuchMethod9", idl.name)));
+            o.insert("parameters".into(), Value::Object(serde_json::Map::new()));
+        }
+        3 => {
+            // the interface name followed by nothing: method part empty
+            o.insert("method".into(), Value::from(format!("{}.", idl.name)));
+        }
+        _ => {
+            o.insert("method".into(), Value::from(format!("{}.{}", idl.name, rng.pick(&with_input).name)));
+        }
+    }
+    Step::Raw(Value::Object(o))
+}
+
+fn session_cases(rng: &mut Rng, ctx: &Ctx, texts_pool: &[String], cases: &mut Vec<Case>) {
+    let abc = [SESSION_A, SESSION_B, SESSION_C];
+    let tag = |t: &str| vec!["kind:session".to_string(), format!("session:{}", t)];
+    let mut push = |cases: &mut Vec<Case>, texts: &[&str], steps: Vec<Option<Step>>, t: &str| {
+        let steps: Vec<Step> = steps.into_iter().flatten().collect();
+        if steps.len() >= 2 {
+            cases.push(Case { input: session_case(texts, &steps), tags: tag(t) });
+        }
+    };
+    // interfaces whose names are dotted prefixes / extensions of each other, both orders
+    let s = vec![gen_step(rng, &abc, 0, Some("Echo"), "call"), gen_step(rng, &abc, 1, Some("Echo"), "call"), gen_step(rng, &abc, 2, None, "call"), gen_step(rng, &abc, 0, Some("Echo"), "call"), gen_step(rng, &abc, 1, Some("Resolve"), "call")];
+    push(cases, &abc, s, "prefix-names-short-first");
+    let s = vec![gen_step(rng, &abc, 1, Some("Echo"), "call"), gen_step(rng, &abc, 0, Some("Echo"), "call"), gen_step(rng, &abc, 1, Some("Resolve"), "more"), gen_step(rng, &abc, 2, None, "call")];
+    push(cases, &abc, s, "prefix-names-long-first");
+    let ba = [SESSION_B, SESSION_A];
+    let s = vec![gen_step(rng, &ba, 1, Some("Note"), "oneway"), gen_step(rng, &ba, 0, Some("Echo"), "call"), gen_step(rng, &ba, 1, Some("Count"), "more"), gen_step(rng, &ba, 0, Some("Echo"), "call")];
+    push(cases, &ba, s, "oneway-then-calls");
+    // an abandoned stream, then other calls on the same connection
+    let s = vec![gen_step(rng, &abc, 0, Some("Echo"), "call"), gen_step(rng, &abc, 0, Some("Count"), "abandon"), gen_step(rng, &abc, 0, Some("Echo"), "call"), gen_step(rng, &abc, 1, Some("Echo"), "call"), Some(raw_step(rng, &abc, false))];
+    push(cases, &abc, s, "abandoned-stream");
+    // hand-written error-provoking requests between generated calls
+    let mut r2 = rng.fork();
+    let s = vec![
+        Some(Step::Raw(serde_json::json!({"method": "Nodot"}))),
+        gen_step(rng, &abc, 0, Some("Echo"), "call"),
+        Some(Step::Raw(serde_json::json!({"method": "org.example.nosuch.Echo", "parameters": {"n": 1}}))),
+        gen_step(rng, &abc, 1, Some("Echo"), "call"),
+        Some(Step::Raw(serde_json::json!({"method": "org.example.net.NoSuchMethod9", "parameters": {}}))),
+        gen_step(rng, &abc, 2, None, "call"),
+        Some(Step::Raw(serde_json::json!({"method": "org.example.net.Echo"}))),
+        gen_step(rng, &abc, 0, Some("Count"), "more"),
+        Some(raw_step(&mut r2, &abc, true)),
+    ];
+    push(cases, &abc, s, "raw-errors-between-calls");
+    // random sessions over 1-3 interfaces
+    let n = if ctx.thorough { 60 } else { 8 };
+    let families: [&[&str]; 4] = [&["a.b", "a.b.c", "a.bc"], &["org.example.s", "org.example.s.t.u", "org.example"], &["x.y.z", "x.y", "x.yy.z"], &["Q.r", "Q.r-1", "Q.r.0"]];
+    for k in 0..n {
+        let mut r = rng.fork();
+        let ni = r.range(1, 3);
+        // interface definitions: taken from the run's random definitions, renamed into a family of related names
+        let fam = families[k % families.len()];
+        let mut owned: Vec<String> = Vec::new();
+        let mut guard = 0;
+        while owned.len() < ni && guard < 50 {
+            guard += 1;
+            let base: String = if k % 3 == 0 || texts_pool.is_empty() { abc[r.below(3)].to_string() } else { r.pick(texts_pool).clone() };
+            let idl = match Idl::parse(&base) {
+                Ok(i) => i,
+                Err(_) => continue,
+            };
+            if !matches!(generate_inproc(&base, false), GenStatus::Ok(_)) {
+                continue;
+            }
+            let renamed = base.replacen(&format!("interface {}", idl.name), &format!("interface {}", fam[owned.len()]), 1);
+            match Idl::parse(&renamed) {
+                Ok(i2) if i2.name == fam[owned.len()] && !i2.methods.is_empty() => owned.push(renamed),
+                _ => continue,
+            }
+        }
+        if owned.is_empty() {
+            continue;
+        }
+        let texts: Vec<&str> = owned.iter().map(|s| s.as_str()).collect();
+        let len = r.range(2, 6);
+        let mut steps: Vec<Option<Step>> = Vec::new();
+        for j in 0..len {
+            let i = r.below(texts.len());
+            let last = j + 1 == len;
+            steps.push(match r.below(10) {
+                0..=3 => gen_step(&mut r, &texts, i, None, "call"),
+                4 => gen_step(&mut r, &texts, i, None, "more"),
+                5 => gen_step(&mut r, &texts, i, None, "oneway"),
+                6 => gen_step(&mut r, &texts, i, None, "abandon"),
+                7 if last => Some(raw_step(&mut r, &texts, true)),
+                _ => Some(raw_step(&mut r, &texts, false)),
+            });
+        }
+        push(cases, &texts, steps, "random");
+    }
+}
+
 fn all_cases(ctx: &Ctx) -> Vec<Case> {
     let mut rng = Rng::new(ctx.seed);
     let mut cases: Vec<Case> = Vec::new();
@@ -706,6 +854,11 @@ fn all_cases(ctx: &Ctx) -> Vec<Case> {
             }
         }
     }
+    // sessions: several calls over ONE connection, on a service with 1-3 generated interfaces
+    {
+        let mut r2 = rng.fork();
+        session_cases(&mut r2, ctx, &texts, &mut cases);
+    }
     // a case line occurs once (corpus lines and built-in witnesses overlap)
     let mut seen = std::collections::HashSet::new();
     cases.retain(|c| seen.insert(c.input.render()));
@@ -911,6 +1064,120 @@ fn frontpath_obs(which: &str, rel: &str, text: &str) -> Sx {
     sx::tagged("frontpath", vec![accepted, sx::atom(status_of(code, &err)), sx::boolean(!produced.is_empty()), same])
 }
 
+/// one step of a session
+#[derive(Clone, Debug)]
+pub enum Step {
+    /// generated client call on interface `iface` (index into the session's interface list)
+    Gen(usize, CallCase),
+    /// a request written by hand on the shared connection (one reply is read back)
+    Raw(Value),
+}
+
+fn step_sx(s: &Step) -> Sx {
+    match s {
+        Step::Gen(i, c) => sx::tagged("g", vec![sx::nat(*i), sx::xs(&c.method), sx::atom(c.mode.clone()), val_sx(&c.args), sx::tagged("script", c.script.iter().map(action_sx).collect())]),
+        Step::Raw(v) => sx::tagged("r", vec![sx::json(v)]),
+    }
+}
+
+fn session_case(texts: &[&str], steps: &[Step]) -> Sx {
+    sx::tagged("session", vec![sx::tagged("ifaces", texts.iter().map(|t| src_sx(t)).collect()), sx::tagged("steps", steps.iter().map(step_sx).collect())])
+}
+
+struct SessionBin {
+    stem: String,
+    idls: Vec<(String, String)>,
+    source: String,
+}
+struct SessionPlan {
+    bin: Option<SessionBin>,
+    command: String,
+    bad: bool,
+}
+
+/// the binary a session case needs and the command that runs it (None: not a session case)
+fn plan_session(c: &Sx) -> Option<SessionPlan> {
+    let l = c.as_list()?;
+    if l.first()?.as_atom()? != "session" {
+        return None;
+    }
+    let bad = SessionPlan { bin: None, command: String::new(), bad: true };
+    let srcs = match l.get(1).and_then(|x| x.as_list()) {
+        Some(s) if s.len() > 1 => &s[1..],
+        _ => return Some(bad),
+    };
+    let texts: Vec<String> = srcs.iter().filter_map(src_text).collect();
+    if texts.len() != srcs.len() || srcs.iter().zip(texts.iter()).any(|(s, t)| s.render() != src_sx(t).render()) {
+        return Some(bad);
+    }
+    let steps = match l.get(2).and_then(|x| x.as_list()) {
+        Some(s) if !s.is_empty() => &s[1..],
+        _ => return Some(bad),
+    };
+    let idls: Vec<Option<Idl>> = texts.iter().map(|t| if matches!(generate_inproc(t, false), GenStatus::Ok(_)) { Idl::parse(t).ok() } else { None }).collect();
+    // call cases per interface, in step order; the command refers to them by index
+    let mut per_iface: Vec<Vec<(usize, CallCase)>> = vec![Vec::new(); texts.len()];
+    let mut cmd = vec![sx::atom("session")];
+    for st in steps {
+        let sl = match st.as_list() {
+            Some(sl) if !sl.is_empty() => sl,
+            _ => return Some(bad),
+        };
+        match sl[0].as_atom().unwrap_or("") {
+            "g" => {
+                let i = sl.get(1).and_then(|x| x.as_usize()).unwrap_or(usize::MAX);
+                if i >= texts.len() {
+                    return Some(bad);
+                }
+                let cc = match (sl.get(2).and_then(|x| x.as_str()), sl.get(3).and_then(|x| x.as_atom()), sl.get(4).and_then(sx_val), sl.get(5).and_then(|x| x.as_list())) {
+                    (Some(method), Some(mode), Some(args), Some(sc)) => {
+                        let script: Option<Vec<Action>> = sc[1..].iter().map(sx_action).collect();
+                        match script {
+                            Some(script) => CallCase { method, mode: mode.to_string(), args, script },
+                            None => return Some(bad),
+                        }
+                    }
+                    _ => return Some(bad),
+                };
+                let k = per_iface[i].len();
+                // the server handles a oneway request (and a stream nobody reads) in its own time: the binary waits until the
+                // implementation has logged the call before it goes on
+                cmd.push(sx::tagged("g", vec![sx::nat(i), sx::nat(k), sx::boolean(cc.mode == "oneway" || cc.mode == "abandon0")]));
+                per_iface[i].push((k, cc));
+            }
+            "r" => {
+                let req = match sl.get(1).and_then(|x| x.to_json()) {
+                    Some(r) => r,
+                    None => return Some(bad),
+                };
+                let mut b = serde_json::to_vec(&req).unwrap();
+                b.push(0);
+                cmd.push(sx::tagged("r", vec![sx::bs(&b)]));
+            }
+            _ => return Some(bad),
+        }
+    }
+    if idls.iter().any(|i| i.is_none()) {
+        return Some(SessionPlan { bin: None, command: String::new(), bad: false });
+    }
+    let mut parts = Vec::new();
+    let mut key = String::new();
+    for (k, (t, idl)) in texts.iter().zip(idls.into_iter()).enumerate() {
+        let mut ikey = t.clone();
+        for (_, c) in &per_iface[k] {
+            ikey.push_str(&call_case("", c).render());
+        }
+        let stem = format!("q{:016x}", build::fnv(ikey.as_bytes()));
+        key.push_str(&ikey);
+        key.push('\u{0}');
+        parts.push((idl.unwrap(), stem, per_iface[k].clone()));
+    }
+    let stem = format!("s{:016x}", build::fnv(key.as_bytes()));
+    let idl_files: Vec<(String, String)> = parts.iter().zip(texts.iter()).map(|(p, t)| (p.1.clone(), t.clone())).collect();
+    let source = session_source(&parts);
+    Some(SessionPlan { bin: Some(SessionBin { stem, idls: idl_files, source }), command: sx::list(cmd).render(), bad: false })
+}
+
 /// generate twice into the same place (same input file name, the text edited in between): the output must be that of
 /// a fresh generation of the second text
 fn regen_obs(which: &str, first: &str, second: &str) -> Sx {
@@ -1007,7 +1274,7 @@ fn prepare(cases: &[Sx]) -> HashMap<String, String> {
             None => continue,
         };
         let kind = l.first().and_then(|x| x.as_atom()).unwrap_or("");
-        if kind == "frontmany" || kind == "helper-batch" || kind == "frontpath" || kind == "regen" {
+        if kind == "frontmany" || kind == "helper-batch" || kind == "frontpath" || kind == "regen" || kind == "session" {
             continue;
         }
         if kind == "options" {
@@ -1051,7 +1318,19 @@ fn prepare(cases: &[Sx]) -> HashMap<String, String> {
                 key.push_str(&call_case("", c).render());
             }
             p.stem = format!("p{:016x}", build::fnv(key.as_bytes()));
-            bins.push(build::BinSpec { stem: p.stem.clone(), idl_text: p.text.clone(), source: bin_source(idl, &p.stem, &p.calls) });
+            bins.push(build::BinSpec { stem: p.stem.clone(), idls: vec![(p.stem.clone(), p.text.clone())], source: bin_source(idl, &p.stem, &p.calls) });
+        }
+    }
+    // session binaries: several generated interfaces in one service
+    let mut sessions: HashMap<String, SessionPlan> = HashMap::new();
+    for c in cases {
+        if let Some(plan) = plan_session(c) {
+            if let Some(spec) = &plan.bin {
+                if !bins.iter().any(|b| b.stem == spec.stem) {
+                    bins.push(build::BinSpec { stem: spec.stem.clone(), idls: spec.idls.clone(), source: spec.source.clone() });
+                }
+            }
+            sessions.insert(c.render(), plan);
         }
     }
     let derives: Vec<build::DeriveSpec> = derive_texts.iter().map(|t| build::DeriveSpec { stem: format!("d{:016x}", build::fnv(t.as_bytes())), idl_text: t.clone() }).collect();
@@ -1107,6 +1386,16 @@ fn prepare(cases: &[Sx]) -> HashMap<String, String> {
         if kind == "helper-batch" {
             let st = build::helper_status();
             obs[ci] = Some(sx::tagged("helper-batch", vec![sx::atom(if st == "ok" { "ok" } else { "failed" })]).render());
+            continue;
+        }
+        if kind == "session" {
+            match sessions.get(&c.render()) {
+                Some(SessionPlan { bin: Some(spec), command, .. }) if built.get(&spec.stem).map(|r| r.built).unwrap_or(false) => {
+                    cmds.entry(spec.stem.clone()).or_default().push((ci, command.clone()));
+                }
+                Some(SessionPlan { bad: true, .. }) | None => obs[ci] = Some("(bad-case)".into()),
+                _ => obs[ci] = Some("(session nobuild)".into()),
+            }
             continue;
         }
         if kind == "regen" {
